@@ -1076,6 +1076,106 @@ theorem marker_range_of (c : Cfg) (h1 : c.first = 0xC2) (h2 : c.last = 0xF4) (b 
   simp only [Bool.and_eq_true, decide_eq_true_eq] at hb
   omega
 
+/-! ### un-escaping whole strings -/
+theorem go_plain (p r : PStr) (h : ∀ x ∈ p, x ≠ 38) : unescapeGo none (p ++ r) = p ++ unescapeGo none r := by
+  induction p with
+  | nil => rfl
+  | cons c p ih =>
+    have hc : c ≠ 38 := h c (by simp)
+    simp only [List.cons_append, unescapeGo, hc, if_false, ih (fun x hx => h x (by simp [hx]))]
+
+theorem go_body (buf body r : PStr) (h : ∀ x ∈ body, x ≠ 38 ∧ x ≠ 59) :
+    unescapeGo (some buf) (body ++ r) = unescapeGo (some (buf ++ body)) r := by
+  induction body generalizing buf with
+  | nil => simp
+  | cons c body ih =>
+    obtain ⟨h1, h2⟩ := h c (by simp)
+    simp only [List.cons_append, unescapeGo, h1, h2, if_false]
+    rw [ih (buf ++ [c]) (fun x hx => h x (by simp [hx]))]
+    simp
+
+/-- a well-formed reference in front of anything is replaced by what it denotes -/
+theorem go_ref (body r : PStr) (ch : Nat) (h : ∀ x ∈ body, x ≠ 38 ∧ x ≠ 59)
+    (hu : unescapeRef (38 :: body ++ [59]) = some ch) :
+    unescapeGo none ((38 :: body ++ [59]) ++ r) = ch :: unescapeGo none r := by
+  have : (38 :: body ++ [59]) ++ r = 38 :: (body ++ (59 :: r)) := by simp
+  rw [this]
+  simp only [unescapeGo, if_true]
+  rw [go_body [38] body (59 :: r) h]
+  simp only [unescapeGo, if_true]
+  have e : [38] ++ body ++ [59] = 38 :: body ++ [59] := by simp
+  rw [e, hu]
+
+/-- decidable per-byte obligation behind the whole-string un-escaping theorem -/
+def unescCheck (T : MsTables) (mode : Mode) (enc : PStr) (t : List (Option Nat)) (b : Nat) : Bool :=
+  if isSmart b then
+    match cp1252At b with
+    | some ch =>
+      match convertWith T enc mode false [b] with
+      | some p =>
+        let body := (p.drop 1).dropLast
+        p == 38 :: body ++ [59] && body.all (fun x => x != 38 && x != 59) && unescapeRef p == some ch
+      | none => false
+    | none => true
+  else if b = 38 then true
+  else
+    match tableByte t b with
+    | some c => convertWith T enc mode false [b] == some [c] && c != 38
+    | none => false
+
+/-- the character the property assigns to a byte of the input: Windows-1252 for 0x80–0x9F, the carrier
+    codec for everything else -/
+def meantChar (t : List (Option Nat)) (b : Nat) : Nat :=
+  if isSmart b then (cp1252At b).getD 0xFFFD else (tableByte t b).getD 0xFFFD
+
+theorem unescape_flatten (T : MsTables) (mode : Mode) (enc : PStr) (t : List (Option Nat))
+    (hall : (List.range 256).all (unescCheck T mode enc t) = true) (markup : Bytes)
+    (h : ∀ b ∈ markup, b < 256 ∧ b ≠ 38 ∧ (isSmart b = true → (cp1252At b).isSome = true)) :
+    unescapeGo none ((markup.map fun b => (convertWith T enc mode false [b]).getD []).flatten) = markup.map (meantChar t) := by
+  rw [List.all_eq_true] at hall
+  induction markup with
+  | nil => rfl
+  | cons b rest ih =>
+    obtain ⟨hlt, h38, hdef⟩ := h b (by simp)
+    have ih := ih (fun x hx => h x (by simp [hx]))
+    have hc := hall b (by simp; omega)
+    simp only [List.map_cons, List.flatten_cons]
+    unfold unescCheck at hc
+    by_cases hs : isSmart b = true
+    · obtain ⟨ch, hch⟩ := Option.isSome_iff_exists.mp (hdef hs)
+      simp only [hs, if_true, hch] at hc
+      split at hc
+      · rename_i p hp
+        simp only [Bool.and_eq_true, beq_iff_eq, List.all_eq_true, bne_iff_ne, ne_eq] at hc
+        obtain ⟨⟨hshape, hbody⟩, hun⟩ := hc
+        rw [hp, Option.getD_some, hshape]
+        rw [hshape] at hun
+        rw [go_ref _ _ ch (fun x hx => hbody x hx) hun, ih]
+        simp [meantChar, hs, hch]
+      · exact absurd hc (by simp)
+    · simp only [hs, Bool.false_eq_true, if_false, h38] at hc
+      split at hc
+      · rename_i c hcb
+        simp only [Bool.and_eq_true, beq_iff_eq, bne_iff_ne, ne_eq] at hc
+        rw [hc.1, Option.getD_some, go_plain [c] _ (by simp [hc.2]), ih]
+        simp [meantChar, hs, hcb]
+      · exact absurd hc (by simp)
+
+/-- table obligation for all carriers at once -/
+def unescCheckAll (T : MsTables) (mode : Mode) : Bool :=
+  carriers.all fun enc =>
+    match codecOf enc with
+    | some (.table t) => (List.range 256).all (unescCheck T mode enc t)
+    | _ => false
+
+theorem decodeTable_map (t : List (Option Nat)) (bs : Bytes) (h : ∀ b ∈ bs, (tableByte t b).isSome = true) :
+    decodeTable t bs = some (bs.map fun b => (tableByte t b).getD 0xFFFD) := by
+  induction bs with
+  | nil => rfl
+  | cons b bs ih =>
+    obtain ⟨c, hc⟩ := Option.isSome_iff_exists.mp (h b (by simp))
+    simp [decodeTable, hc, ih (fun x hx => h x (by simp [hx]))]
+
 /-- For closed examples: evaluate both sides with `==` in the kernel (much faster than deciding `=`). -/
 def evalsTo {α} [BEq α] (a b : α) : Bool := a == b
 
